@@ -195,8 +195,12 @@ def gap (c : Cfg) (lvl : Nat) : Bytes := if c.compact then [] else 0x0a :: inden
 
 def colon (c : Cfg) : Bytes := if c.compact then [0x3a] else [0x3a, 0x20]
 
+/-- a raw DEL: legal unescaped in JSON, escaped by jq's convention -/
+def hasDel (cs : List Char) : Bool := cs.any (fun ch => ch.toNat == 0x7f)
+
+/-- `span_is_verbatim_safe`: the zero-copy arm needs a span without backslash and without DEL -/
 def strBytes (c : Cfg) (s : Str) : Bytes :=
-  if !c.ascii && !s.esc then 0x22 :: (rawBody s.cs ++ [0x22])
+  if !c.ascii && !s.esc && !hasDel s.cs then 0x22 :: (rawBody s.cs ++ [0x22])
   else 0x22 :: (escBody c.ascii s.cs ++ [0x22])
 
 mutual
@@ -343,11 +347,12 @@ def Opts.lazy (o : Opts) : Bool := !o.seq && !o.sortKeys && !o.ascii
 def Opts.fastOk (o : Opts) : Bool :=
   o.lazy && o.compact && !o.rawOut && o.preserve
 
-/-- the `Cfg` each route prints with; `fmt` is the jq-compat number re-spelling -/
+/-- the `Cfg` each route prints with; `fmt` is the jq-compat number re-spelling. An empty indent
+unit (`--indent 0`) means compact on every route (`print_json` and `format_json_impl` agree). -/
 def Opts.cfg (o : Opts) (r : Route) (fmt : Bytes → Bytes) : Cfg :=
   match r with
   | .mat => { compact := o.compact || o.unit.isEmpty, unit := o.unit, ascii := o.ascii, fmt := fmt }
-  | _ => { compact := o.compact, unit := o.unit, ascii := o.ascii,
+  | _ => { compact := o.compact || o.unit.isEmpty, unit := o.unit, ascii := o.ascii,
            fmt := if o.preserve then id else fmt }
 
 /-- the value a route hands to the structural printer -/
